@@ -458,3 +458,22 @@ def consistent(conds: Iterable[Guard]) -> bool:
             return False
         seen[key] = pol
     return True
+
+
+def dealias(fn: ast.AST, expr: ast.AST, at: ast.AST, depth: int = 0) -> ast.AST:
+    """`expr` with a local that is bound to a plain attribute chain (`w = params.species_label_width`,
+    `anchors = layout.anchors`) replaced by that chain; anything else is returned as it is."""
+    if depth > 3 or not isinstance(expr, ast.Name):
+        return expr
+    try:
+        got = reaching(fn, expr.id, at)
+    except Exception:  # noqa: BLE001 - `at` outside the statements of fn (a default value, a decorator)
+        return expr
+    if got is None or isinstance(got, Opaque) or not isinstance(got, ast.Attribute):
+        return expr
+    cur = got
+    while isinstance(cur, ast.Attribute):
+        cur = cur.value
+    if not isinstance(cur, ast.Name):
+        return expr
+    return got
